@@ -221,6 +221,21 @@ def check_point(cls, spec, o, res):
     except Exception as e:
         add_violation(res, f"C06:{cname}:str-unexpected-exception", f"str() raised {e!r}", case)
         sobs = "EXC"
+    # ---- every other text rendering protocol: repr, %-formatting, format(), f-strings, inside containers --------------------
+    for how, fn in (("repr()", lambda: repr(r)), ("'%s' %", lambda: "%s" % (r,)), ("'%r' %", lambda: "%r" % (r,)),
+                    ("format()", lambda: format(r)), ("'{}'.format", lambda: "{}".format(r)), ("'{!r}'.format", lambda: "{!r}".format(r)),
+                    ("f'{r!s:>4}'", lambda: f"{r!s:>4}"), ("str([r])", lambda: str([r])), ("str({'k': r})", lambda: str({"k": r})),
+                    ("ascii()", lambda: ascii(r))):
+        try:
+            t = fn()
+            if not isinstance(t, str):
+                add_violation(res, f"C06:{cname}:render-type", f"{how} returned {type(t)}", case)
+        except (MissingResponse, ResponseError) as e:
+            add_violation(res, f"C06:{cname}:render-raises:{okind}", f"{how} of {cname}({o}) raised {type(e).__name__}", case)
+        except ValueError:
+            observe(res, "render_valueerror_on_undefined_enum_code")
+        except Exception as e:
+            add_violation(res, f"C06:{cname}:render-unexpected-exception", f"{how} of {cname}({o}) raised {e!r}", case)
     # ---- reading is idempotent: the same object read again (value, str, status, named bits) says the same --------------
     def snapshot():
         nonlocal r
